@@ -494,3 +494,79 @@ func verifC09Rank(rx, ry, rz int) {}
 //@     invariant 0 <= idx() <= rlen() && rlen() == len(keys) - 1 && unchanged(keys[0].k.proj)
 //@     invariant forall m int :: 1 <= m <= idx() ==> fval(keys[m].k.vals, f) == base
 //@     decreases rlen() - idx()
+
+// ---------------------------------------------------------------------------
+// Column header tree (C16): at every level the header cells tile the columns
+
+// childOK: every child is a node of the next level covering at least one key, inside its parent's range.
+//@ pure func childOK(n *KeyHeaderNode) bool = forall i int :: 0 <= i < len(n.Children) ==>
+//@     n.Children[i] != nil && n.Children[i].Len >= 1 && n.Children[i].Field == n.Field+1 &&
+//@     n.Start <= n.Children[i].Start && n.Children[i].Start + n.Children[i].Len <= n.Start + n.Len
+
+// chain: each child starts where the previous one ends (no gap, no overlap).
+//@ pure func chain(n *KeyHeaderNode) bool = forall i int :: {n.Children[i], n.Children[i+1]} 0 <= i < len(n.Children) - 1 ==>
+//@     n.Children[i+1].Start == n.Children[i].Start + n.Children[i].Len
+
+// ends: the first child starts at the parent's first key and the last child ends at its last key.
+//@ pure func ends(n *KeyHeaderNode) bool = (len(n.Children) == 0 ==> n.Len == 0) &&
+//@     (len(n.Children) > 0 ==> n.Children[0].Start == n.Start &&
+//@        n.Children[len(n.Children)-1].Start + n.Children[len(n.Children)-1].Len == n.Start + n.Len)
+
+// distinctKids: the children are separately allocated objects (distinct from each other and from n).
+//@ pure func distinctKids(n *KeyHeaderNode) bool = (forall i int :: 0 <= i < len(n.Children) ==> ref(n.Children[i]) != ref(n)) &&
+//@     (forall i int, k int :: 0 <= i < k < len(n.Children) ==> ref(n.Children[i]) != ref(n.Children[k]))
+
+// tiled: the children of n tile n's key range (opaque to the solver until needed).
+//@ rec func tiled(n *KeyHeaderNode) bool = childOK(n) && chain(n) && ends(n)
+
+//@ pure func headerFieldsOK(fields []*Field, keys []Key) bool = forall i int :: 0 <= i < len(fields) ==>
+//@     fields[i] != nil && fields[i].idx >= 0 && !fields[i].IsTuple && fields[i].proj == keys[0].k.proj
+
+// walk(parent): the children created for parent tile parent's key range
+// [Start, Start+Len) in order, each covering at least one key; parent's own
+// range is left alone.  (The recursion is checked against this same contract.)
+//@ func NewKeyHeader$1(parent *KeyHeaderNode)
+//@   props C16
+//@   opt allocates
+//@   requires parent != nil && -1 <= parent.Field < len(fields) && len(parent.Children) == 0
+//@   requires 0 <= parent.Start && 0 <= parent.Len && parent.Start + parent.Len <= len(keys)
+//@   requires len(keys) > 0 && sameProj(keys) && headerFieldsOK(fields, keys)
+//@   modifies parent, parent.Children
+//@   ensures parent.Start == old(parent.Start) && parent.Len == old(parent.Len) && parent.Field == old(parent.Field) && parent.Value == old(parent.Value)
+//@   ensures parent.Field + 1 < len(fields) ==> tiled(parent)
+//@   ensures parent.Field + 1 >= len(fields) ==> len(parent.Children) == 0
+//@   loop 1:
+//@     invariant 0 <= idx() <= rlen() && rlen() == parent.Len && level == parent.Field + 1 && level < len(fields) && field == fields[level]
+//@     invariant parent.Start == old(parent.Start) && parent.Len == old(parent.Len) && parent.Field == old(parent.Field) && parent.Value == old(parent.Value)
+//@     invariant unchanged(parent, parent.Children, old(parent.Children)) && (ref(parent.Children) == ref(old(parent.Children)) || fresh(parent.Children))
+//@     invariant forall i int :: 0 <= i < len(parent.Children) ==> parent.Children[i] != nil && fresh(parent.Children[i]) && parent.Children[i].Len >= 1 &&
+//@                 parent.Children[i].Field == level && parent.Children[i].Children == nil &&
+//@                 parent.Start <= parent.Children[i].Start && parent.Children[i].Start + parent.Children[i].Len <= parent.Start + idx()
+//@     invariant chain(parent) && distinctKids(parent)
+//@     invariant idx() == 0 ==> len(parent.Children) == 0 && node == nil
+//@     invariant idx() > 0 ==> len(parent.Children) > 0 && node == parent.Children[len(parent.Children)-1] &&
+//@                 parent.Children[0].Start == parent.Start && node.Start + node.Len == parent.Start + idx()
+//@     decreases rlen() - idx()
+//@   loop 2:
+//@     invariant 0 <= idx() <= rlen() && rlen() == len(parent.Children) && level == parent.Field + 1 && level < len(fields)
+//@     invariant parent.Start == old(parent.Start) && parent.Len == old(parent.Len) && parent.Field == old(parent.Field) && parent.Value == old(parent.Value)
+//@     invariant unchanged(parent, parent.Children, old(parent.Children)) && (ref(parent.Children) == ref(old(parent.Children)) || fresh(parent.Children))
+//@     invariant childOK(parent) && chain(parent) && ends(parent) && distinctKids(parent)
+//@     invariant forall i int :: 0 <= i < len(parent.Children) ==> fresh(parent.Children[i])
+//@     invariant forall i int :: idx() <= i < len(parent.Children) ==> parent.Children[i].Children == nil
+//@     decreases rlen() - idx()
+
+// The top level of the header tiles all the keys, in order.
+//@ pure func topTiles(top []*KeyHeaderNode, n int) bool =
+//@     (forall i int :: 0 <= i < len(top) ==> top[i] != nil && top[i].Len >= 1 && top[i].Field == 0 && 0 <= top[i].Start && top[i].Start + top[i].Len <= n) &&
+//@     (forall i int :: {top[i], top[i+1]} 0 <= i < len(top) - 1 ==> top[i+1].Start == top[i].Start + top[i].Len) &&
+//@     (len(top) > 0 ==> top[0].Start == 0 && top[len(top)-1].Start + top[len(top)-1].Len == n)
+
+//@ func NewKeyHeader(keys []Key) (h *KeyHeader)
+//@   props C16
+//@   requires sameProj(keys) && (len(keys) > 0 ==> keys[0].k.proj != nil)
+//@   modifies keys[0].k.proj
+//@   ensures h != nil && fresh(h)
+//@   ensures len(keys) == 0 ==> len(h.Keys) == 0 && len(h.Top) == 0
+//@   ensures len(keys) > 0 ==> h.Keys === keys && len(h.Levels) == flatLen(old(keys[0].k.proj))
+//@   ensures len(keys) > 0 && len(h.Levels) > 0 ==> topTiles(h.Top, len(keys))
